@@ -526,7 +526,49 @@ def directed_cases(ctx):
                 ctx.violation("alias_view", f"Item.{label} (in place: {ip}): alias reads {res_alias!r} (same object as the target: {same_obj}), expected the local value {al_want!r}", features=feats, case=["directed_coll", label, ip])
             elif restored != tgt_want:
                 ctx.violation("alias_view", f"Item.{label} (in place: {ip}) then del: alias reads {restored!r}, expected the live view {tgt_want!r} again", features=feats, case=["directed_coll", label, ip])
-    ctx.sig("directed", "paths", "collection_alias")
+    # (3) the fallback stands in for a *missing target* only: a transform that raises AttributeError on a present target is
+    #     not answered with the fallback (with and without one the error reaches the caller)
+    for has_fallback in (False, True):
+        for deprecated in (False, True):
+            ctx.count("ops_judged")
+            ctx.count("directed_transform_error_cases")
+            feats = {"shape": "directed_transform_error", "op": "ra", "fallback": has_fallback, "deprecated": deprecated}
+            from spec_classes import DeprecatedAlias
+            import warnings
+
+            kw = {"fallback": "n/a"} if has_fallback else {}
+            al = (DeprecatedAlias if deprecated else Alias)("owner", transform=lambda o: o.name, passthrough=False, **kw)
+
+            class Host2:
+                pass
+
+            Host2.al = al
+            al.__set_name__(Host2, "al")
+            h = Host2()
+            outcomes = []
+            with warnings.catch_warnings():
+                warnings.simplefilter("ignore")
+                for state in ("target_missing", "target_none", "target_named"):
+                    if state == "target_none":
+                        h.owner = None
+                    elif state == "target_named":
+                        h.owner = _Named("x")
+                    try:
+                        outcomes.append(h.al)
+                    except AttributeError:
+                        outcomes.append("AttributeError")
+                    except Exception as e:
+                        outcomes.append(type(e).__name__)
+            want = ["n/a" if has_fallback else "AttributeError", "AttributeError", "x"]
+            if outcomes != want:
+                ctx.violation("alias_view", f"{'Deprecated' if deprecated else ''}Alias('owner', transform=lambda o: o.name{', fallback=...' if has_fallback else ''}) read with the target missing / None / named: {outcomes}, expected {want}",
+                              features=feats, case=["directed_transform_error", has_fallback, deprecated])
+    ctx.sig("directed", "paths", "collection_alias", "transform_error")
+
+
+class _Named:
+    def __init__(self, name):
+        self.name = name
 
 
 def cg_exec(src):
